@@ -529,6 +529,35 @@ func (e *Env) evalCall(x *Expr) (SV, error) {
 		return SV{T: c.And(c.Cmp(">=", a[0].T, v.getGlobal(e.old, "$alloc")), c.Cmp("<", a[0].T, v.getGlobal(e.st, "$alloc")))}, nil
 	case "$unfold":
 		return SV{}, serr("unfold is only allowed as a hint")
+	case "isdyn", "dyn":
+		// isdyn(x, T): interface value x holds a value of concrete type T; dyn(x, T): that value
+		if len(x.Args) != 2 {
+			return SV{}, serr("%s(x, T)", x.Name)
+		}
+		a, err := e.Eval(x.Args[0])
+		if err != nil {
+			return SV{}, err
+		}
+		tn := typeExprName(x.Args[1])
+		if tn == "" {
+			return SV{}, serr("%s: second argument must be a type name", x.Name)
+		}
+		so, gt, err := v.resolveType(tn)
+		if err != nil {
+			return SV{}, err
+		}
+		if gt == nil {
+			return SV{}, serr("%s: %s has no Go type", x.Name, tn)
+		}
+		if a.T.Sort != SInt {
+			return SV{}, serr("%s: first argument must be an interface value", x.Name)
+		}
+		if x.Name == "isdyn" {
+			return SV{T: c.And(c.Not(c.Eq(a.T, c.Int(0))), c.Eq(c.UF("typeof", SInt, a.T), v.typeTag(gt)))}, nil
+		}
+		name := "unbox_" + sanitize(shortTypeName(gt))
+		c.DeclareFun(name, []*Sort{SInt}, so)
+		return SV{T: c.App(name, so, a.T), GoT: gt}, nil
 	}
 	args, err := e.evalArgs(x.Args)
 	if err != nil {
@@ -745,4 +774,23 @@ func (v *Verifier) spliceArr(a, b, n *Term) *Term {
 			a.Sort.Name, a.Sort.Name, name, name))
 	}
 	return c.App(name, a.Sort, a, b, n)
+}
+
+// typeExprName renders a type written in expression position (CVA, *CVA, pkg.T) back to its name.
+func typeExprName(e *Expr) string {
+	switch e.Kind {
+	case "id":
+		return e.Name
+	case "un":
+		if e.Name == "*" {
+			if in := typeExprName(e.Args[0]); in != "" {
+				return "*" + in
+			}
+		}
+	case "field":
+		if in := typeExprName(e.Args[0]); in != "" {
+			return in + "." + e.Name
+		}
+	}
+	return ""
 }
